@@ -41,13 +41,24 @@ func envCacheResetRule(p *engine.Prog, r *engine.Report, rule, pkg, typ string) 
 	cleared := map[string]bool{}
 	for _, s := range storesToField([]*ssa.Function{reset}, typ, "") {
 		_, fld, _ := engine.FieldOf(s.Addr)
+		// the reset is unconditional: it happens on every path through Reset (a "nothing to do" fast
+		// path that tests some caches and skips all resets leaves the untested ones behind)
+		everyPath := true
+		for _, ret := range engine.Returns(reset) {
+			if !isRecoverBlock(ret.Block()) && !s.Block().Dominates(ret.Block()) {
+				everyPath = false
+			}
+		}
+		if !everyPath {
+			continue
+		}
 		switch engine.Unwrap(s.Val).(type) {
 		case *ssa.MakeMap, *ssa.Const, *ssa.Slice, *ssa.MakeSlice:
 			cleared[fld] = true
 		}
 	}
 	for _, fld := range sortedKeys(ranged) {
-		r.Check(cleared[fld], rule, typ+".Reset clears "+fld, p.Pos(reset.Pos()), "fresh per transaction", typ+".Commit writes back "+fld+" but Reset does not clear it: what a failed (uncommitted) transaction buffered is applied by the next successful one in the block")
+		r.Check(cleared[fld], rule, typ+".Reset clears "+fld, p.Pos(reset.Pos()), "fresh per transaction", typ+".Commit writes back "+fld+" but Reset does not clear it on every path: what a failed (uncommitted) transaction buffered is applied by the next successful one in the block")
 	}
 }
 
